@@ -219,6 +219,10 @@ var cliStreamCommands = []struct {
 	{"C06", []string{"revcomp", "zz", "b", "c"}}, // a name no alignment has, before names they have
 	{"C06", []string{"revcomp", "c", "zz", "a"}},
 	{"C13", []string{"dedup", "-l", "@aux"}},
+	{"C06", []string{"unalign", "-o", "@perfile"}},
+	{"C06", []string{"unalign", "-o", "@perfile", "-t", "4"}},
+	{"C14", []string{"stats", "--per-sequences", "--ref-sequence", "b"}},
+	{"C14", []string{"stats", "--per-sequences"}},
 	{"C11", []string{"reformat", "phylip"}},
 	{"C11", []string{"reformat", "phylip", "--output-strict"}},
 	{"C11", []string{"reformat", "nexus"}},
@@ -265,6 +269,14 @@ func cliStreamCheck(c *mc.Ctx, box *cliBox, cs cliStreamCase) {
 				args[i], hasAux = box.path("aux.txt"), true
 			}
 		}
+		// "@perfile": the command writes one file per alignment, <prefix>_000001.fa, <prefix>_000002.fa, ...; what
+		// is compared is their content in that order
+		perFile := false
+		for i, a := range args {
+			if a == "@perfile" {
+				args[i], perFile = box.path("pf"), true
+			}
+		}
 		box.drop("aux.txt")
 		out, err, pn, msg, herr := box.runStdout(c, args...)
 		if herr {
@@ -277,6 +289,17 @@ func cliStreamCheck(c *mc.Ctx, box *cliBox, cs cliStreamCase) {
 		lastAux = ""
 		if hasAux {
 			lastAux, _ = box.get("aux.txt")
+		}
+		if perFile {
+			for k := 1; ; k++ {
+				name := fmt.Sprintf("pf_%06d.fa", k)
+				x, found := box.get(name)
+				if !found {
+					break
+				}
+				lastAux += x
+				box.drop(name)
+			}
 		}
 		return out, err == nil, true
 	}
